@@ -97,3 +97,43 @@ package ddsketch
 //@   ensures stable: footprintStable(s)
 //@   modifies footprint(s)
 //@   hint RankBound(real(quantile), old(KCount(s))), store.STotNonneg(s.positiveValueStore), store.STotNonneg(s.negativeValueStore)
+
+// ---------------------------------------------------------------- copy, clear, merge, reweight
+//@ func DDSketch.Copy
+//@   serves C14 C02
+//@   requires KInv(s)
+//@   ensures result != nil && fresh(result) && KInv(result) && result.IndexMapping == s.IndexMapping && same(result.zeroCount, s.zeroCount)
+//@   ensures content: KPosTot(result) == KPosTot(s) && KNegTot(result) == KNegTot(s) && (forall k int :: KPos(result, k) == KPos(s, k)) && (forall k int :: KNeg(result, k) == KNeg(s, k))
+//@   ensures independent: footprintFresh(result)
+//@   ensures pure: KInv(s) && KSame(s)
+
+//@ func DDSketch.Clear
+//@   serves C15
+//@   requires KInv(s)
+//@   ensures KInv(s) && s.IndexMapping == old(s.IndexMapping) && s.positiveValueStore == old(s.positiveValueStore) && s.negativeValueStore == old(s.negativeValueStore)
+//@   ensures empty: same(s.zeroCount, xf(0.0)) && KPosTot(s) == 0.0 && KNegTot(s) == 0.0 && (forall k int :: KPos(s, k) == 0.0) && (forall k int :: KNeg(s, k) == 0.0)
+//@   ensures stable: footprintStable(s)
+//@   modifies footprint(s)
+
+// MergeWith: refused (nothing changes) when the mappings differ; otherwise zero weights add up, both sides are
+// merged, and the argument is unchanged.
+//@ func DDSketch.MergeWith
+//@   serves C02 C13
+//@   requires KInv(s) && KInv(other) && disjoint(s, other)
+//@   ensures refuse: !mapping.MEq(s.IndexMapping, other.IndexMapping) ==> result != nil && KSame(s) && untouched(s)
+//@   ensures accept: mapping.MEq(s.IndexMapping, other.IndexMapping) ==> result == nil && same(s.zeroCount, old(s.zeroCount) + old(other.zeroCount)) && KPosTot(s) == old(KPosTot(s)) + old(KPosTot(other)) && KNegTot(s) == old(KNegTot(s)) + old(KNegTot(other))
+//@   ensures content: mapping.MEq(s.IndexMapping, other.IndexMapping) ==> (store.SExact(s.positiveValueStore) ==> (forall k int :: KPos(s, k) == old(KPos(s, k)) + old(KPos(other, k)))) && (store.SExact(s.negativeValueStore) ==> (forall k int :: KNeg(s, k) == old(KNeg(s, k)) + old(KNeg(other, k))))
+//@   ensures arg: other.IndexMapping == old(other.IndexMapping) && same(other.zeroCount, old(other.zeroCount)) && KPosTot(other) == old(KPosTot(other)) && KNegTot(other) == old(KNegTot(other)) && (forall k int :: KPos(other, k) == old(KPos(other, k))) && (forall k int :: KNeg(other, k) == old(KNeg(other, k)))
+//@   ensures KInv(s) && KInv(other) && s.IndexMapping == old(s.IndexMapping)
+//@   ensures stable: footprintStable(s) && footprintStable(other)
+//@   modifies footprint(s), footprint(other)
+
+// Reweight: refused (nothing changes) for w <= 0; otherwise every weight is multiplied by w.
+//@ func DDSketch.Reweight
+//@   serves C16 C13
+//@   requires KInv(s) && finite(w)
+//@   ensures refuse: w <= 0.0 ==> result != nil && KSame(s)
+//@   ensures ok: w > 0.0 ==> result == nil && same(s.zeroCount, old(s.zeroCount) * w) && KPosTot(s) == real(w) * old(KPosTot(s)) && KNegTot(s) == real(w) * old(KNegTot(s)) && (forall k int :: KPos(s, k) == real(w) * old(KPos(s, k))) && (forall k int :: KNeg(s, k) == real(w) * old(KNeg(s, k)))
+//@   ensures KInv(s) && s.IndexMapping == old(s.IndexMapping)
+//@   ensures stable: footprintStable(s)
+//@   modifies footprint(s)
